@@ -8,6 +8,7 @@ mod c07;
 mod c20;
 mod c12;
 mod c16;
+mod c18;
 
 use common::*;
 use std::path::PathBuf;
@@ -36,6 +37,7 @@ fn main() {
         "c20" => c20::run(&mut out, tier, seed, replay),
         "c12" => c12::run(&mut out, tier, seed, replay),
         "c16" => c16::run(&mut out, tier, seed, replay),
+        "c18" => c18::run(&mut out, tier, seed, replay),
         _ => {
             eprintln!("unknown property {}", prop);
             std::process::exit(2);
